@@ -59,7 +59,7 @@ def run(ctx):
               "placeholder); distinct = distinct case lines"),
         key_fn=key_fn, what_fn=what_fn,
         translators=[("schema", "ConfigSchemaGen.v")],
-        bridge_files=["Gen/ConfigSchema_bridge.v", "Properties/C17_depth.v"],
+        bridge_files=["Gen/ConfigSchema_bridge.v", "Properties/C17_depth.v", "Properties/C17_ctor.v"],
         trusted=[
             "translator harness/cmd/translate schema (reflection over the real plugin registry after the CLI's imports; package harness/internal/a16schema)",
             "verif hooks in /repo: core/plugin/verif_schema.go (read-only registry listing), cli/verif_export.go (exports readConfig)",
